@@ -159,34 +159,44 @@ Definition put_char (ctx : rctx) (st : wstate) (ch : N) : outcome (wstate * bool
 
 (* impl io::Write for TerminalWriter: bytes through the decoder; every decoded character
    is put; after a put that returned false the rest of the buffer is dropped and the call
-   reports the whole buffer as written; a decoding error is returned to the caller.
-   Result flag: true = Ok(len), false = Err. *)
-Fixpoint write_bytes (ctx : rctx) (st : wstate) (bytes : list N) : outcome (wstate * bool) :=
+   reports the whole buffer as written (WFull); a decoding error is returned to the
+   caller (WErr); otherwise the whole buffer was processed (WDone). *)
+Inductive wstat := WDone | WFull | WErr.
+
+Definition wstat_ok (s : wstat) : bool := match s with WErr => false | _ => true end.
+
+Fixpoint write_bytes (ctx : rctx) (st : wstate) (bytes : list N) : outcome (wstate * wstat) :=
   match bytes with
-  | [] => Ok (st, true)
+  | [] => Ok (st, WDone)
   | b :: rest =>
       let '(u, r) := utf8_feed (w_dec st) b in
       let st1 := set_dec st u in
       match r with
       | UNone => write_bytes ctx st1 rest
-      | UErr => Ok (st1, false)
+      | UErr => Ok (st1, WErr)
       | UChar ch =>
           match put_char ctx st1 ch with
           | Ok (st2, true) => write_bytes ctx st2 rest
-          | Ok (st2, false) => Ok (st2, true)
-          | other => other
+          | Ok (st2, false) => Ok (st2, WFull)
+          | Err e => Err e
+          | Panic s => Panic s
+          | OutOfFuel => OutOfFuel
           end
       end
   end.
 
-(* a caller issuing one write per chunk and giving up at the first error (write_all / `?`) *)
+(* a caller issuing one write per chunk and giving up at the first error (write_all / `?`);
+   the flag says whether every call returned Ok *)
 Fixpoint write_chunks (ctx : rctx) (st : wstate) (chunks : list (list N)) : outcome (wstate * bool) :=
   match chunks with
   | [] => Ok (st, true)
   | ch :: rest =>
       match write_bytes ctx st ch with
-      | Ok (st', true) => write_chunks ctx st' rest
-      | other => other
+      | Ok (st', WErr) => Ok (st', false)
+      | Ok (st', _) => write_chunks ctx st' rest
+      | Err e => Err e
+      | Panic s => Panic s
+      | OutOfFuel => OutOfFuel
       end
   end.
 
@@ -199,6 +209,15 @@ Inductive wop :=
 | OWrite (chunks : list (list N))    (* io::Write::write once per chunk, stop at the first Err *)
 | OWriteU (chunks : list (list N)).  (* the same through writer.by_ref().utf8_writer(): Utf8CellWriter
                                         with a decoder of its own, dropped afterwards *)
+
+(* the same operation with all its bytes passed in one call: two programs with equal images
+   differ only in how the bytes of each write are split across calls *)
+Definition merge_op (o : wop) : wop :=
+  match o with
+  | OWrite chunks => OWrite [concat chunks]
+  | OWriteU chunks => OWriteU [concat chunks]
+  | other => other
+  end.
 
 Definition wop_step (ctx : rctx) (st : wstate) (o : wop) : outcome (wstate * bool) :=
   match o with
